@@ -154,7 +154,8 @@ def step (st : Unit) (j : Json) : Unit × Json :=
         let shifts ← pairsField j "shifts"
         let m := lstsq2 basis shifts
         let up := polar2 m
-        let (c10, c12, phi12, rot) := fitExtract up.1 up.2
+        -- the translated extraction on the closed-form polar factors
+        let (c10, c12, phi12, rot) := fitExtractTranslated up.1 up.2
         pure (okJson (Json.mkObj [("fit", flist [c10, c12, phi12, rot]), ("M", m2Json m),
                                   ("U", m2Json up.1), ("P", m2Json up.2)]))
     | "extract" =>
@@ -162,7 +163,7 @@ def step (st : Unit) (j : Json) : Unit × Json :=
         let p ← floatList (← field j "P")
         match u, p with
         | [ua, ub, uc, ud], [pa, pb, pc, pd] =>
-            let (c10, c12, phi12, rot) := fitExtract (⟨ua, ub, uc, ud⟩ : M2 Float) ⟨pa, pb, pc, pd⟩
+            let (c10, c12, phi12, rot) := fitExtractTranslated (⟨ua, ub, uc, ud⟩ : M2 Float) ⟨pa, pb, pc, pd⟩
             pure (okJson (flist [c10, c12, phi12, rot]))
         | _, _ => throw "U/P shape"
     | _ => throw s!"unknown op {op}" : Except String Json) with
